@@ -30,6 +30,10 @@ type c03eRoute struct {
 
 type c03eCase struct {
 	Groups [][]c03eRoute `json:"groups"`
+	// Prefix[g]: WithPrefix options applied, in order, when group g is added through
+	// Server.AddRoutes; Share[g] >= 0: group g re-uses the []Route slice of that earlier group.
+	Prefix [][]string `json:"prefix,omitempty"`
+	Share  []int      `json:"share,omitempty"`
 	Custom bool          `json:"custom,omitempty"` // custom not-found handler behind the engine wrapper
 	Reqs   []c03eRoute   `json:"reqs"`
 }
@@ -60,7 +64,9 @@ func c03eInterp(c c03eCase) (v kit.Verdict) {
 		}
 	}()
 	classes := map[string]bool{}
-	ng := newEngine(Config{Host: "c03e"})
+	srv := &Server{ng: newEngine(Config{Host: "c03e"}), router: router.NewRouter()}
+	ng := srv.ng
+	var slices [][]Route
 	var ran []int
 	var ranVars map[string]string
 	id := 0
@@ -73,17 +79,43 @@ func c03eInterp(c c03eCase) (v kit.Verdict) {
 	seen := map[string]bool{}
 	wantErr := false
 	var all []c03eRoute
+	var groupIDs [][]int
 	for gi, g := range c.Groups {
 		var rs []Route
-		for _, r := range g {
+		var myIDs []int
+		var prefixes []string
+		if gi < len(c.Prefix) {
+			prefixes = c.Prefix[gi]
+		}
+		shared := -1
+		if gi < len(c.Share) && c.Share[gi] >= 0 && c.Share[gi] < gi {
+			shared = c.Share[gi]
+			g = c.Groups[shared]
+			classes["shared-route-slice"] = true
+		}
+		for ri, r := range g {
+			if shared < 0 {
+				_ = ri
+			}
+			for _, pf := range prefixes {
+				r.P = path.Join(pf, r.P)
+			}
 			my := id
-			id++
-			all = append(all, r)
-			rs = append(rs, Route{Method: r.M, Path: r.P, Handler: func(w http.ResponseWriter, q *http.Request) {
-				ran = append(ran, my)
-				ranVars = pathvar.Vars(q)
-				w.WriteHeader(299)
-			}})
+			if shared >= 0 {
+				my = groupIDs[shared][ri]
+			} else {
+				id++
+				raw := c.Groups[gi][ri]
+				rs = append(rs, Route{Method: raw.M, Path: raw.P, Handler: func(w http.ResponseWriter, q *http.Request) {
+					ran = append(ran, my)
+					ranVars = pathvar.Vars(q)
+					w.WriteHeader(299)
+				}})
+			}
+			for len(all) <= my {
+				all = append(all, r)
+			}
+			myIDs = append(myIDs, my)
 			bad := !c03eValid[r.M] || len(r.P) == 0 || r.P[0] != '/'
 			if !bad {
 				k := r.M + " " + path.Clean(r.P)
@@ -97,7 +129,7 @@ func c03eInterp(c c03eCase) (v kit.Verdict) {
 				seen[k] = true
 			}
 			if bad {
-				if !wantErr && (gi < len(c.Groups)-1 || len(rs) < len(g)) {
+				if !wantErr && (gi < len(c.Groups)-1 || ri < len(g)-1) {
 					classes["rejected-route-not-last"] = true
 					v.NonTrivial = true
 				}
@@ -112,9 +144,18 @@ func c03eInterp(c c03eCase) (v kit.Verdict) {
 				table[r.M] = append(table[r.M], reg{id: my, segs: c03eSegs(r.P), lit: lit})
 			}
 		}
-		ng.addRoutes(featuredRoutes{routes: rs})
+		if shared >= 0 {
+			rs = slices[shared]
+		}
+		slices = append(slices, rs)
+		groupIDs = append(groupIDs, myIDs)
+		var opts []RouteOption
+		for _, pf := range prefixes {
+			opts = append(opts, WithPrefix(pf))
+		}
+		srv.AddRoutes(rs, opts...)
 	}
-	rt := router.NewRouter()
+	rt := srv.router
 	if c.Custom {
 		rt.SetNotFoundHandler(ng.notFoundHandler(http.HandlerFunc(func(w http.ResponseWriter, q *http.Request) {
 			ran = append(ran, -1)
@@ -141,11 +182,11 @@ func c03eInterp(c c03eCase) (v kit.Verdict) {
 		rt.ServeHTTP(rec, &http.Request{Method: q.M, URL: &url.URL{Path: q.P}, Header: http.Header{}, RemoteAddr: "127.0.0.1:1"})
 		rsegs := c03eSegs(q.P)
 		what := fmt.Sprintf("request %s %q over engine groups %v", q.M, q.P, c.Groups)
-		matches := map[int]map[string][]string{}
+		matches := map[int][]map[string][]string{} // handler id -> variable bindings of its matching registrations
 		literal := -1
 		for _, g := range table[q.M] {
 			if vars, ok := c03eMatch(g.segs, rsegs); ok {
-				matches[g.id] = vars
+				matches[g.id] = append(matches[g.id], vars)
 				if g.lit {
 					literal = g.id
 				}
@@ -155,7 +196,7 @@ func c03eInterp(c c03eCase) (v kit.Verdict) {
 			if len(ran) != 1 || ran[0] < 0 {
 				return v.Failf("%s: a registered pattern matches but ran=%v status=%d", what, ran, rec.Code)
 			}
-			vars, ok := matches[ran[0]]
+			cands, ok := matches[ran[0]]
 			if !ok {
 				return v.Failf("%s: handler of route #%d %v ran, which does not match", what, ran[0], all[ran[0]])
 			}
@@ -165,19 +206,25 @@ func c03eInterp(c c03eCase) (v kit.Verdict) {
 			if rec.Code != 299 {
 				return v.Failf("%s: handler's status 299 became %d", what, rec.Code)
 			}
-			if len(vars) != len(ranVars) {
-				return v.Failf("%s: vars %v, reference %v", what, ranVars, vars)
-			}
-			for n, vals := range vars {
-				ok := false
-				for _, x := range vals {
-					if ranVars[n] == x {
-						ok = true
+			good := false
+			for _, vars := range cands {
+				if len(vars) != len(ranVars) {
+					continue
+				}
+				all := true
+				for n, vals := range vars {
+					hit := false
+					for _, x := range vals {
+						if got, present := ranVars[n]; present && got == x {
+							hit = true
+						}
 					}
+					all = all && hit
 				}
-				if !ok {
-					return v.Failf("%s: var %q=%q, reference %v", what, n, ranVars[n], vals)
-				}
+				good = good || all
+			}
+			if !good {
+				return v.Failf("%s: bound vars %v, reference allows %v", what, ranVars, cands)
 			}
 			classes["dispatched"] = true
 			continue
@@ -278,15 +325,73 @@ func c03eGen(rt *rapid.T) c03eCase {
 		}
 		c.Groups = append(c.Groups, rs)
 	}
+	for g := 0; g < ng; g++ {
+		var pf []string
+		np := rapid.SampledFrom([]int{0, 0, 1, 1, 2}).Draw(rt, "nprefix")
+		for i := 0; i < np; i++ {
+			pf = append(pf, rapid.SampledFrom([]string{"/v1", "/v2", "/a", "/:x", "/v1/", "v3"}).Draw(rt, "prefix"))
+		}
+		c.Prefix = append(c.Prefix, pf)
+		sh := -1
+		if g > 0 && rapid.IntRange(0, 3).Draw(rt, "share") == 0 {
+			sh = rapid.IntRange(0, g-1).Draw(rt, "sharewith")
+			for sh >= 0 && c.Share[sh] >= 0 {
+				sh = c.Share[sh]
+			}
+		}
+		c.Share = append(c.Share, sh)
+		if sh >= 0 { // the same route list mounted again: under a prefix of its own
+			c.Prefix[g] = append([]string{fmt.Sprintf("/s%d", g)}, pf...)
+			if len(c.Prefix[g]) > 2 {
+				c.Prefix[g] = c.Prefix[g][:2]
+			}
+		}
+	}
 	c.Custom = rapid.Bool().Draw(rt, "custom")
+	// effective patterns (prefixes applied), to derive requests that are likely to match
+	var eff []c03eRoute
+	for g := range c.Groups {
+		src := c.Groups[g]
+		if c.Share[g] >= 0 {
+			src = c.Groups[c.Share[g]]
+		}
+		for _, r := range src {
+			for _, pf := range c.Prefix[g] {
+				r.P = path.Join(pf, r.P)
+			}
+			if len(r.P) > 0 && r.P[0] == '/' {
+				eff = append(eff, r)
+			}
+		}
+	}
 	n := rapid.IntRange(1, 10).Draw(rt, "nreqs")
 	for i := 0; i < n; i++ {
 		var q c03eRoute
+		if len(eff) > 0 && rapid.IntRange(0, 9).Draw(rt, "derive") < 6 {
+			r := eff[rapid.IntRange(0, len(eff)-1).Draw(rt, "from")]
+			q.M = r.M
+			if rapid.IntRange(0, 5).Draw(rt, "otherm") == 0 {
+				q.M = rapid.SampledFrom([]string{"GET", "POST", "PUT", "DELETE", "PATCH"}).Draw(rt, "qm2")
+			}
+			for _, sg := range c03eSegs(r.P) {
+				if len(sg) > 0 && sg[0] == ':' {
+					sg = rapid.SampledFrom([]string{"a", "b", "z", "v1"}).Draw(rt, "subst")
+				}
+				if sg != "" {
+					q.P += rapid.SampledFrom([]string{"/", "/", "/", "//", "/./"}).Draw(rt, "dsep") + sg
+				}
+			}
+			if q.P == "" {
+				q.P = "/"
+			}
+			c.Reqs = append(c.Reqs, q)
+			continue
+		}
 		q.M = rapid.SampledFrom([]string{"GET", "GET", "POST", "PUT", "DELETE", "PATCH"}).Draw(rt, "qm")
-		depth := rapid.IntRange(0, 3).Draw(rt, "qdepth")
+		depth := rapid.IntRange(0, 4).Draw(rt, "qdepth")
 		q.P = ""
 		for j := 0; j < depth; j++ {
-			q.P += rapid.SampledFrom([]string{"/", "/", "//", "/./"}).Draw(rt, "qsep") + rapid.SampledFrom([]string{"a", "b", "c", "d", "e"}).Draw(rt, "qseg")
+			q.P += rapid.SampledFrom([]string{"/", "/", "//", "/./"}).Draw(rt, "qsep") + rapid.SampledFrom([]string{"a", "b", "c", "d", "e", "v1", "v2", "s1", "s2"}).Draw(rt, "qseg")
 		}
 		if q.P == "" {
 			q.P = "/"
